@@ -448,40 +448,111 @@ def _read_hash_table(d: ast.Dict) -> t.Dict[t.Tuple[bool, bool, bool, bool], str
     return out
 
 
+def _action_class(name: str) -> str:
+    return 'none' if name == 'None' else ('set_none' if 'none' in name.lower() else ('exception' if 'exception' in name.lower() else 'add'))
+
+
+def _eval_bool_function(fn: ast.FunctionDef, env: t.Dict[str, bool]) -> str:
+    """Result expression (as text) of a function made of if / return over Boolean parameters, for one assignment of the parameters."""
+    def truth(e: ast.expr) -> bool:
+        if isinstance(e, ast.Name) and e.id in env:
+            return env[e.id]
+        if isinstance(e, ast.Constant):
+            return bool(e.value)
+        if isinstance(e, ast.UnaryOp) and isinstance(e.op, ast.Not):
+            return not truth(e.operand)
+        if isinstance(e, ast.BoolOp):
+            vals = [truth(v) for v in e.values]
+            return all(vals) if isinstance(e.op, ast.And) else any(vals)
+        raise AnalysisError(f"hash rule function: condition `{unparse(e)}` is not a Boolean combination of its parameters")
+
+    def run(body: t.Sequence[ast.stmt]) -> t.Optional[str]:
+        for st in body:
+            if isinstance(st, ast.Expr) and isinstance(st.value, ast.Constant) or isinstance(st, ast.Pass):
+                continue
+            if isinstance(st, ast.If):
+                res = run(st.body if truth(st.test) else st.orelse)
+                if res is not None:
+                    return res
+                continue
+            if isinstance(st, ast.Return):
+                v = st.value
+                if isinstance(v, ast.IfExp):
+                    v = v.body if truth(v.test) else v.orelse
+                return unparse(v) if v is not None else 'None'
+            raise AnalysisError(f"hash rule function: statement `{unparse(st)[:50]}` is not modelled")
+        return None
+    res = run(fn.body)
+    return res if res is not None else 'None'
+
+
 def rule_c16_r1(model: Model) -> RuleResult:
     r = RuleResult('C16-R1', 'the hash rule table equals the standard library dataclass table, cell by cell', floor=16)
-    tbl = model.table(CLS, anchors.short(anchors.hash_table(model)))
-    if not isinstance(tbl, ast.Dict):
-        raise AnalysisError("pane.classes._hash_action is not a dict display")
-    ours = _read_hash_table(tbl)
+    f = model.func(f'{CLS}._maybe_make_hash')
+    cfg = cfg_of(model, f)
+    nz = Normalizer(model, f, cfg, param_map=_pm(f))
+    r.analysed.add(f.qualname)
     std = _stdlib_hash_table()
+    roles_want = ['unsafe_hash', 'eq', 'frozen', 'explicit']
+
+    def role_of(form: str) -> t.Optional[str]:
+        f2 = form.replace('$cls', 'cls')
+        for nm in ('unsafe_hash', 'eq', 'frozen'):
+            if re.match(rf'^(bool\()?cls\.__pane_info__\.opts\.{nm}\)?$', f2):
+                return nm
+        if '__hash__' in f2 or 'explicit' in f2.lower():
+            return 'explicit'
+        return None
+    ours: t.Dict[t.Tuple[bool, bool, bool, bool], str] = {}
+    loc = f.loc()
+    order: t.Optional[t.List[t.Optional[str]]] = None
+    # (a) a table indexed by a 4-tuple
+    try:
+        tq = anchors.hash_table(model)
+    except AnalysisError:
+        tq = None
+    for n in cfg.live_nodes():
+        for root in node_exprs(n):
+            for x in walk_no_nested(root):
+                if tq is not None and isinstance(x, ast.Subscript) and model.resolve(x.value, f.module, f) == tq:
+                    key_e, kn = _follow(cfg, n, x.slice)
+                    if isinstance(key_e, ast.Tuple) and len(key_e.elts) == 4:
+                        order = [role_of(nz.expr(e, kn)) for e in key_e.elts]
+                        tbl = model.table(CLS, anchors.short(tq))
+                        if not isinstance(tbl, ast.Dict):
+                            raise AnalysisError("the hash action table is not a dict display")
+                        raw = _read_hash_table(tbl)
+                        loc = f"pane/classes.py:{tbl.lineno}"
+                        if None not in order and sorted(order) == sorted(roles_want):       # type: ignore[type-var]
+                            for key, v in raw.items():
+                                named = dict(zip(order, key))
+                                ours[tuple(named[rw] for rw in roles_want)] = v       # type: ignore[index,assignment]
+                # (b) a function of four Booleans
+                if isinstance(x, ast.Call) and len(x.args) == 4 and not x.keywords and not ours:
+                    g = model.functions.get(model.resolve(x.func, f.module, f) or '')
+                    if g is not None and g.cls is None and isinstance(g.node, ast.FunctionDef) and len(g.params) == 4:
+                        order = [role_of(nz.expr(a, n)) for a in x.args]
+                        if None not in order and sorted(order) == sorted(roles_want):       # type: ignore[type-var]
+                            r.analysed.add(g.qualname)
+                            loc = g.loc()
+                            import itertools as _it
+                            for bits in _it.product([False, True], repeat=4):
+                                env = dict(zip(g.params, bits))
+                                named = dict(zip(order, bits))
+                                ours[tuple(named[rw] for rw in roles_want)] = _action_class(_eval_bool_function(g.node, env))   # type: ignore[index]
+    if not ours:
+        raise AnalysisError(f"{f.loc()}: _maybe_make_hash: neither a table indexed by (unsafe_hash, eq, frozen, explicit) nor a function of "
+                            f"these four options was found (argument roles seen: {order})")
     for key in sorted(std):
         r.instances += 1
         if key not in ours:
             r.fail(f'{CLS}._hash_action', f"missing cell {key}", 'pane/classes.py', "option combination without a hash rule (KeyError at class creation)")
         elif ours[key] != std[key]:
-            r.fail(f'{CLS}._hash_action', f"cell (unsafe_hash, eq, frozen, explicit)={key}: {ours[key]}", f"pane/classes.py:{tbl.lineno}",
+            r.fail(f'{CLS}._hash_action', f"cell (unsafe_hash, eq, frozen, explicit)={key}: {ours[key]}", loc,
                    f"the standard library rule for this combination is '{std[key]}', pane applies '{ours[key]}'")
         else:
             r.ok()
-    r.sample({'cells': len(ours), 'example': {str(k): v for k, v in list(sorted(ours.items()))[:3]}})
-    f = model.func(f'{CLS}._maybe_make_hash')
-    cfg = cfg_of(model, f)
-    nz = Normalizer(model, f, cfg, param_map=_pm(f))
-    r.analysed.add(f.qualname)
-    r.instances += 1
-    idx = None
-    for n in cfg.live_nodes():
-        for root in node_exprs(n):
-            for s in walk_no_nested(root):
-                if isinstance(s, ast.Subscript) and model.resolve(s.value, f.module, f) == anchors.hash_table(model):
-                    idx = nz.expr(s.slice, n)
-    want = '(bool(cls.__pane_info__.opts.unsafe_hash), bool(cls.__pane_info__.opts.eq), bool(cls.__pane_info__.opts.frozen), '
-    r.sample({'lookup key': idx})
-    if idx is not None and idx.replace('$cls', 'cls').startswith(want):
-        r.ok()
-    else:
-        r.fail(f.qualname, f"lookup key {idx}", f.loc(), "the table is indexed by something other than (unsafe_hash, eq, frozen, has_explicit_hash) in that order")
+    r.sample({'cells': len(ours), 'argument order': order, 'example': {str(k): v for k, v in list(sorted(ours.items()))[:3]}})
     return r
 
 
